@@ -37,6 +37,9 @@ func jsonVal(v *AVal) string {
 		return strconv.Quote("p-${" + fmt.Sprint(v.V) + "}")
 	case "type", "kw":
 		return strconv.Quote(fmt.Sprint(v.V))
+	case "legref":
+		// the "legacy" form of a reference in JSON: the bare address as a string
+		return strconv.Quote(fmt.Sprint(v.V))
 	case "list":
 		parts := []string{}
 		for _, e := range v.Es {
